@@ -1,8 +1,31 @@
+# C05 - inbound SMTP DATA decoding (qmail-smtpd.c blast, commands.c resumption)
+#
+# Note on witnesses: the driver reports "vacuous" (exit 2), not VIOLATION, when a mutant makes a required witness
+# unreachable, even if CHECKs fail as well; the required witnesses are therefore kept generic (no size-tight probes).
+#
+# kills: (hand-made mutants of /repo in scratch worktrees; each reported as VIOLATION with a replay that
+#         reproduces natively, rc 1)
+#   M1 qmail-smtpd.c blast state 2: `if (ch == '\n') straynewline();` -> `return;`  (".LF" ends DATA = smuggling)
+#        -> smtpd_blast, resume_next_command  ("the message ends only at a line consisting of a single dot ...")
+#   M2 state 0: bare LF treated as a line end (`{ state = 1; break; }`)            -> smtpd_blast
+#   M3 state 1: leading dot not removed (`state = 2; break;`)                       -> smtpd_blast, roundtrip_ref_sender, remote_to_smtpd
+#   M4 state 3: `put("\r")` dropped                                                 -> smtpd_blast
+#   M5 state 4: bare CR dropped (`put("\r")` removed)                               -> smtpd_blast, roundtrip_ref_sender
+#   M6 hop counter: Received not counted                                            -> smtpd_blast (C05/hops lower bound)
+#   M7 state 3 + LF: one more byte consumed before returning                        -> smtpd_blast, roundtrip_ref_sender, resume_next_command
+#   M8 commands.c: last byte of every command line stripped, not only CR            -> resume_next_command
+#   M9 qmail-remote.c blast: first dot of a line not stuffed                        -> remote_to_smtpd
 from vlib import Obl, Prog
 
 SMTPD = Prog("qmail-smtpd.c", nomain=True)
 REMOTE = Prog("qmail-remote.c", nomain=True)
 STR = ["stralloc_opys.c", "stralloc_opyb.c", "byte_copy.c"]
+
+IDEAL = "substdio_get/put/puts/flush: ideal byte streams (lib/ideal_substdio.c); contract proved on the real substdio in C20 layer-0 lemmas"
+SAFEREAD = "saferead (timeoutread on the connection): end of stream ends the process (die_read -> _exit(1)); timeouts not modelled"
+QPUT = ("qmail_put (qmail.c) cut: observing stub with an `unsigned int` length - the call site `qmail_put(&qqt,ch,1)` has no "
+        "prototype in scope (DESIGN 2.1, ABI assumption: a constant int argument is passed zero-extended)")
+EXIT = "_exit: records status, runs the exit-path assertions, ends the path"
 
 def obligations(tier):
     quick = tier == "quick"
@@ -11,31 +34,60 @@ def obligations(tier):
             progs=[SMTPD],
             lib=["ideal_substdio.c"],
             sysrename=["_exit"],
-            grid=[{"N": n} for n in ([14] if quick else [16, 18])],
+            grid=[{"N": n} for n in ([14] if quick else [16, 18, 20])],
             unwind=lambda p: {"blast": p["N"] + 2, "substdio_put": 64},
             unwind_default=lambda p: p["N"] + 3,
-            timeout=900,
+            timeout=900 if quick else 3000,
+            functions=["qmail-smtpd.c:blast", "qmail-smtpd.c:put", "qmail-smtpd.c:straynewline", "qmail-smtpd.c:out", "qmail-smtpd.c:flush"],
+            stubs=[IDEAL, SAFEREAD, EXIT],
+            cuts=[QPUT, "qmail_fail cut: counts calls (never called: no databytes limit in this harness; databytes is C07)"],
+            assumes=["byte stream after DATA of at most N bytes, every byte value 0..255, then end of stream; databytes = 0"],
+            outside=["streams longer than N bytes", "read chunking inside the real substdio buffers (layer-0 lemma)", "timeouts",
+                     "the 100-hop limit itself (C07); only the counter is compared"],
+            claim="for every stream <= N bytes: blast returns iff the stream contains the line '.' CRLF with no bare LF before it, "
+                  "having consumed exactly up to that line and queued exactly the reference decoding (CRLF->LF, one leading dot "
+                  "removed, bare CR kept; dot of a line '.CR<non-LF>' may be kept - recorded judgement); a bare LF first => 451, "
+                  "flushed, exit 1; neither => exit without reply; hop counter between 'Received:/Delivered-To:' fields and "
+                  "'received/delivered' line prefixes",
             expect_witnesses=lambda p: ["accepted", "eof_before_terminator", "bare_lf_refused", "bare_lf_refused_at_last_byte",
                                         "stuffed_line_full_length", "bare_cr_kept", "empty_message",
                                         "bytes_left_for_next_command"]
-                                       + (["hop_counted"] if p["N"] >= 13 else []) + (["received_field"] if p["N"] >= 14 else [])),
+                                       + (["hop_counted"] if p["N"] >= 14 else []) + (["received_field"] if p["N"] >= 15 else [])),
         Obl("roundtrip_ref_sender", "roundtrip.c",
             progs=[SMTPD],
             lib=["ideal_substdio.c"],
             sysrename=["_exit"],
-            grid=[{"M": m} for m in ([6] if quick else [8])],
+            grid=[{"M": m} for m in ([6] if quick else [8, 10])],
             unwind=lambda p: {"blast": 2 * p["M"] + 3 + 2, "substdio_put": 64},
             unwind_default=lambda p: 2 * p["M"] + 6,
-            timeout=900,
+            timeout=900 if quick else 3000,
+            functions=["qmail-smtpd.c:blast", "qmail-smtpd.c:put", "qmail-smtpd.c:straynewline"],
+            stubs=[IDEAL, SAFEREAD, EXIT, "ref_encode: conforming RFC 5321 sender written in the harness (LF->CRLF, dot-stuffing, final dot line)"],
+            cuts=[QPUT],
+            assumes=["message of at most M bytes, every byte value 0..255 (CR included), empty or ending in LF; two arbitrary bytes follow the terminator"],
+            outside=["messages longer than M bytes", "messages without final newline (a conforming sender cannot transmit them)"],
+            claim="for every message m <= M bytes with final newline: blast(ref_encode(m)) returns exactly after the sender's "
+                  "terminator and has queued exactly m, byte for byte; never refused",
             expect_witnesses=["round_trip", "dot_only_line", "dot_cr_line", "cr_before_final_newline", "empty_message"]),
         Obl("remote_to_smtpd", "remote2smtpd.c", backend="cadical",
             progs=[REMOTE, SMTPD],
             lib=["ideal_substdio.c"],
             sysrename=["_exit"],
-            grid=[{"M": m} for m in ([5] if quick else [7])],
+            grid=[{"M": m} for m in ([5] if quick else [6, 7])],
             unwind=lambda p: {"remote_blast": p["M"] + 2, "blast": 3 * p["M"] + 8 + 2, "substdio_put": 100},
             unwind_default=lambda p: 4 * p["M"] + 10,
-            timeout=900,
+            timeout=900 if quick else 3000,
+            functions=["qmail-remote.c:blast", "qmail-remote.c:out", "qmail-remote.c:zerodie", "qmail-remote.c:perm_partialline",
+                       "qmail-smtpd.c:blast", "qmail-smtpd.c:put", "qmail-smtpd.c:straynewline"],
+            stubs=[IDEAL, SAFEREAD, EXIT,
+                   "two programs in one translation unit: the 7 file-scope names both define (blast helohost out saferead safewrite "
+                   "ssin timeout) are renamed for the qmail-remote copy by #define around its #include"],
+            cuts=[QPUT],
+            assumes=["message of at most M bytes, every byte value 0..255, EOF anywhere; no read errors"],
+            outside=["messages longer than M bytes", "messages with a partial last line: refused by the sender (C06(d))"],
+            claim="for every message m <= M bytes that qmail-remote's blast() transmits completely: qmail-smtpd's blast() ends the "
+                  "message exactly at the sender's final dot line (no earlier end, no refusal, nothing left over); a CR-free m is "
+                  "queued byte-identical; with CR bytes m and the result agree after deleting CR and LF (C06(c) reading)",
             expect_witnesses=["identical", "dot_only_line", "with_cr", "cr_dot_lf", "sender_refused_partial_line"]),
         Obl("resume_next_command", "resume.c",
             # the copy ends before the smtpcommands table: cbmc resolves `c[i].fun(arg)` by type, so every
@@ -45,11 +97,24 @@ def obligations(tier):
             lib=["ideal_substdio.c", "arena_stralloc.c"],
             defines={"ARENA_CAP": 40, "ARENA_SLOTS": 2},
             sysrename=["_exit", "time"],
-            grid=[{"N": n} for n in ([10] if quick else [12])],
+            grid=[{"N": n} for n in ([10] if quick else [12, 14])],
             unwind=lambda p: {"blast": p["N"] + 2, "substdio_put": 70, "commands~    for (;;)": max(p["N"], 6) + 2, "commands~  for (;;)": 3,
                               "fmt_ulong": 12},
             unwind_default=lambda p: p["N"] + 8,
-            timeout=900,
+            timeout=900 if quick else 3000,
+            functions=["commands.c:commands", "qmail-smtpd.c:smtp_data", "qmail-smtpd.c:blast", "qmail-smtpd.c:put",
+                       "qmail-smtpd.c:straynewline", "qmail-smtpd.c:acceptmessage", "qmail-smtpd.c:out", "qmail-smtpd.c:flush",
+                       "str_chr.c", "case_diffs.c", "fmt_ulong.c", "stralloc_opys.c", "stralloc_opyb.c"],
+            stubs=[IDEAL, SAFEREAD, EXIT, "stralloc_ready/readyplus: arena (40 bytes)", "time: constant",
+                   "command table of two entries: 'data' -> real smtp_data (first time), anything else -> recording handler"],
+            cuts=[QPUT, "qmail_open/qmail_qp/qmail_from/qmail_fail/qmail_close (qmail.c): observing stubs, qmail_close verdict symbolic (C07 proves the queue side)",
+                  "received() (received.c): no-op stub (Received: line is C07's)"],
+            assumes=["one stream = 'DATa' CRLF followed by at most N symbolic bytes (every value), then end of stream; state after MAIL and RCPT"],
+            outside=["streams longer than N bytes", "NUL bytes inside the next command's verb (commands() uses C strings; documents silent)"],
+            claim="commands() fed 'DATA' CRLF payload ++ rest: smtp_data consumes exactly up to the terminator, queues the reference "
+                  "decoding once, answers 354 then the verdict of qmail_close; the next handler runs with the stream positioned after "
+                  "the first LF behind the terminator and with verb/argument equal to the bytes in between; bare LF => 354, 451, "
+                  "exit, qmail_close never called",
             expect_witnesses=["next_command_dispatched", "next_command_4_letters", "next_command_with_argument", "next_after_accept",
                               "bare_lf_refused_nothing_queued", "eof_after_data"]),
     ]
